@@ -313,3 +313,9 @@ PROPS["C20"] = {
     "quick": {"configs": ["tsan", "default"], "cases": 160, "floor_evaluations": 300, "floor_nontrivial": 100, "timeout": 1500},
     "thorough": {"configs": ["tsan", "default"], "cases": 10000, "floor_evaluations": 20000},
 }
+
+for _id in ("C01", "C03", "C04", "C05", "C10", "C11", "C15"):
+    PROPS[_id]["fuzz"] = True
+    PROPS[_id]["thorough"]["fuzz_s"] = 300
+PROPS["C04"]["fuzz_max_len"] = 2048
+PROPS["C05"]["fuzz_max_len"] = 1024
